@@ -69,13 +69,63 @@ func c17Filter(c *core.Ctx) {
 			}
 		})
 		construct := "types.(*CertificateBuildParams).Range#filter-" + kind
+		localAcc := false
+		if app == nil {
+			// the kept elements are collected in a local slice that becomes the field afterwards: the value stored into
+			// the field is, through the Phis of the loop, a fresh empty slice extended by exactly one append
+			var fieldVal ssa.Value
+			core.Instrs(fn, func(i ssa.Instruction) {
+				if st, ok := i.(*ssa.Store); ok {
+					if fa, ok := st.Addr.(*ssa.FieldAddr); ok && fa.X == ssa.Value(nc) && sx.Of(fa).Name == kind {
+						fieldVal = st.Val
+					}
+				}
+			})
+			if fieldVal != nil {
+				seen := map[ssa.Value]bool{}
+				var apps []*ssa.Call
+				fresh := true
+				var back func(v ssa.Value)
+				back = func(v ssa.Value) {
+					if seen[v] {
+						return
+					}
+					seen[v] = true
+					switch x := v.(type) {
+					case *ssa.Phi:
+						for _, e := range x.Edges {
+							back(e)
+						}
+					case *ssa.Call:
+						if b, ok := x.Call.Value.(*ssa.Builtin); ok && b.Name() == "append" && len(x.Call.Args) == 2 {
+							apps = append(apps, x)
+							back(x.Call.Args[0])
+							return
+						}
+						fresh = false
+					case *ssa.MakeSlice:
+						if k, ok := core.ConstInt(x.Len); !ok || k != 0 {
+							fresh = false
+						}
+					case *ssa.ChangeType:
+						back(x.X)
+					default:
+						fresh = false
+					}
+				}
+				back(fieldVal)
+				if fresh && len(apps) == 1 {
+					app, localAcc = apps[0], true
+				}
+			}
+		}
 		if app == nil {
 			c.Violate(rule, construct, fn.Pos(), "no append into the new certificate's "+kind)
 			continue
 		}
 		// appended value: exactly the element, onto the new certificate's own slice
 		appArgs := sx.Of(app.Call.Args[1]).String()
-		ownSlice := false
+		ownSlice := localAcc
 		if u, ok := app.Call.Args[0].(*ssa.UnOp); ok {
 			if fa, ok := u.X.(*ssa.FieldAddr); ok && fa.X == ssa.Value(nc) && sx.Of(fa).Name == kind {
 				ownSlice = true
@@ -85,6 +135,10 @@ func c17Filter(c *core.Ctx) {
 		okLower := len(lower) > 0 && core.ReachableWithout(core.Entry(fn), lower, func(i ssa.Instruction) bool { return i == ssa.Instruction(app) }) == nil
 		okUpper := len(upper) > 0 && core.ReachableWithout(core.Entry(fn), upper, func(i ssa.Instruction) bool { return i == ssa.Instruction(app) }) == nil
 		// nothing else filters: from the edge where both bounds hold, the loop cannot advance without appending
+		kept := ssa.Instruction(appStore)
+		if localAcc {
+			kept = app
+		}
 		okOnly := true
 		for _, e := range upper {
 			// only consider the upper-bound test taken after the lower bound held (or vice versa): start after both
@@ -92,7 +146,7 @@ func c17Filter(c *core.Ctx) {
 			if core.ReachableWithout(core.Entry(fn), lower, func(i ssa.Instruction) bool { return i == firstInstr(start) }) != nil {
 				continue
 			}
-			skip := (&core.Walk{Stop: func(i ssa.Instruction) bool { return i == ssa.Instruction(appStore) }, Target: func(i ssa.Instruction) bool {
+			skip := (&core.Walk{Stop: func(i ssa.Instruction) bool { return i == kept }, Target: func(i ssa.Instruction) bool {
 				// advancing the range index or returning
 				if _, isRet := i.(*ssa.Return); isRet {
 					return true
@@ -112,7 +166,7 @@ func c17Filter(c *core.Ctx) {
 			if core.ReachableWithout(core.Entry(fn), upper, func(i ssa.Instruction) bool { return i == firstInstr(start) }) != nil {
 				continue
 			}
-			skip := (&core.Walk{Stop: func(i ssa.Instruction) bool { return i == ssa.Instruction(appStore) }, Target: func(i ssa.Instruction) bool {
+			skip := (&core.Walk{Stop: func(i ssa.Instruction) bool { return i == kept }, Target: func(i ssa.Instruction) bool {
 				if _, isRet := i.(*ssa.Return); isRet {
 					return true
 				}
@@ -347,16 +401,21 @@ func c17Gap(c *core.Ctx) {
 	if m != nil {
 		pos := core.TermEdges(m, sx, func(s string, _ *core.Term) bool { return s == "(fromBlock > const(0))" || s == "(fromBlock != const(0))" }, true)
 		ok := len(pos) > 0
+		var got []string
 		for _, rc := range core.ReturnCases(m) {
 			switch sx.Of(rc.Values[0]).String() {
 			case "(fromBlock - const(1))":
 				ok = ok && rc.ReachableOnlyVia(m, pos)
 			case "const(0)":
+			case "(builtin.max(fromBlock, const(1)) - const(1))", "(builtin.max(const(1), fromBlock) - const(1))":
+				// max(x, 1) >= 1: the subtraction cannot wrap, and the result is 0 exactly for x in {0, 1}
+				ok = true
 			default:
+				got = append(got, sx.Of(rc.Values[0]).String())
 				ok = false
 			}
 		}
-		c.Decide(ok, rule, "types.getBlockMinusOne#saturating", m.Pos(), "x-1 only when x > 0, otherwise 0")
+		c.Decide(ok, rule, "types.getBlockMinusOne#saturating", m.Pos(), fmt.Sprintf("x-1 only when x > 0, otherwise 0 %v", got))
 	}
 }
 
